@@ -17,7 +17,7 @@ OPS = {'OrthoLeft', 'OrthoRight', 'Ortho'}
 def runs(tier):
     q = tier == 'quick'
     base = dict(MaxD=3 if q else 4, MaxDB=1, DimsR={1, 2}, DimsC={1, 2}, RanksS={1, 2}, Seeds={1}, MaxDepth=1,
-                EmitAll=False, Vias={'matmul'}, QL=1, OWs={False}, Lean=False)
+                EmitAll=False, Vias={'matmul'}, QL=1, OWs={False}, Lean=False, IslLevel=0)
     out = []
     out.append(dict(name='g1', constants=dict(base, Scenarios={'single'}, Ops=OPS,
                                               KindPairs={('real', 'real'), ('complex', 'complex')})))
